@@ -13,7 +13,8 @@ Panic-site table (trusted hand audit, exercised by the C09 run):
 |-------------------------------------------------------|------------------------------------|
 | `changeset.roots[len-1]` in `verify_upgrade`          | `lastRoot?` = none → `.err` (repaired) |
 | `p.nodes/p.upgrade/signature` `expect`s               | `.err` (repaired)                  |
-| `while iter.index() != root` climbing loops           | fuel 80 → `.panic`                 |
+| `while iter.index() != root` climbing loops (create side) | fuel 80 → `.panic`              |
+| loops of `verify_upgrade`                             | fuel = a bound on the rounds derived from the inputs (see `Proofs/VerifyTotal`) → `.panic` |
 | `node.length - parent.length` in byte_offset_in_changeset | Nat subtraction (sizes are sums)  |
 -/
 namespace HC
@@ -409,7 +410,7 @@ def upgradeRoots (C : Crypto) (to : Nat) : Nat → UpState → R UpState
     else if st.grow ∧ st.i < st.cs.roots.length then
       let rootIndex := it.index
       let last := (st.cs.roots.getLast?.getD default).index
-      match growLoop C rootIndex (st.q.length + 2) st.cs (Iter.new last) st.q with
+      match growLoop C rootIndex (st.q.nodes.length + 3) st.cs (Iter.new last) st.q with
       | .error e => .error e
       | .ok (cs', it', q') => upgradeRoots C to fuel { st with cs := cs', it := it'.nextTree, q := q', grow := false }
     else
@@ -441,7 +442,7 @@ def descendTo (target : Nat) : Nat → Iter → R Iter
 def extraRest (C : Crypto) : Changeset → Iter → List Node → R (Changeset × Iter)
   | cs, it, [] => .ok (cs, it)
   | cs, it, n :: ex =>
-    match descendTo n.index 80 it with
+    match descendTo n.index (it.factor + 1) it with
     | .error e => .error e
     | .ok it1 =>
       let (cs', it2) := appendRoot C cs n it1
@@ -460,7 +461,8 @@ def checkSignature (C : Crypto) (fork : Nat) (u : DataUpgrade) (pk : Bytes) (con
 def verifyUpgrade (C : Crypto) (fork : Nat) (u : DataUpgrade) (blockRoot : Option Node) (pk : Bytes)
     (cs : Changeset) : R (Bool × Changeset) :=
   let st0 : UpState := ⟨cs, Iter.new 0, NodeQueue.new u.nodes blockRoot, 0, !cs.roots.isEmpty⟩
-  andThen (upgradeRoots C (2 * (u.start + u.length)) 80 st0) fun st =>
+  -- (fuel: the iterator's index grows in every round and the loop stops at `to`)
+  andThen (upgradeRoots C (2 * (u.start + u.length)) (2 * (u.start + u.length) + 2) st0) fun st =>
     match st.cs.roots.getLast? with
     | none => .error .err
     | some last =>
